@@ -25,9 +25,8 @@ def cases(tier, seed):
             for L in (1, 2, 3):
                 for T in (1, 2):
                     out.append(dict(base, rel="positions_are_indexing", mask={"kind": "fancy", "L": L}, threads=T))
-            for a, b, s in ((1, None, None), (None, -1, None), (None, None, 2), (-3, 3, 1), (N, None, None), (-N - 1, N + 1, 2), (2, 1, None), (None, None, -1)):
-                if s == -1:
-                    continue
+            for a, b, s in ((1, None, None), (None, -1, None), (None, None, 2), (-3, 3, 1), (N, None, None), (-N - 1, N + 1, 2), (2, 1, None), (None, None, -1),
+                            (N - 1, None, -2), (2, -N - 2, -1)):
                 out.append(dict(base, rel="slice_is_indexing", mask={"kind": "slice", "start": a, "stop": b, "step": s}, threads=1))
                 out.append(dict(base, rel="slice_is_indexing", mask={"kind": "slice", "start": a, "stop": b, "step": s}, threads=2))
             for T in (1,):
